@@ -220,3 +220,44 @@ pub fn c04(rng: &mut impl Rng, len: usize) -> Vec<Value> {
     }
     evs
 }
+
+/// C06: hotspot QPS reject rules only.
+pub fn c06(rng: &mut impl Rng, len: usize) -> Vec<Value> {
+    let t0 = rng.gen_range(0..20000u64);
+    let mut evs = vec![json!({"e": "reset", "t": t0, "obs": 0, "cfg": {"nt": 20, "It": 10000, "n": 2, "I": 1000}})];
+    let mut t = t0;
+    let vals = ["a", "b", "c", "d"];
+    let mut rules = Vec::new();
+    let nrules = if rng.gen_range(0..4) == 0 { 2 } else { 1 };
+    for k in 0..nrules {
+        let mut spec = serde_json::Map::new();
+        for v in vals.iter() {
+            if rng.gen_range(0..4) == 0 {
+                spec.insert(v.to_string(), json!(rng.gen_range(0..=4u64)));
+            }
+        }
+        let keyed = rng.gen_range(0..4) == 0;
+        rules.push(json!({"id": format!("h{}", k + 1), "res": "r1", "metric": "qps", "ctl": "reject",
+            "idx": if keyed { 0 } else { rng.gen_range(-2..=2i64) }, "key": if keyed { "k" } else { "" },
+            "thr": rng.gen_range(0..=5u64), "burst": rng.gen_range(0..=3u64), "dur": rng.gen_range(1..=3u64),
+            "spec": spec, "cap": if rng.gen_range(0..3) == 0 { 4 } else { 0 }, "maxq": 0}));
+    }
+    evs.push(json!({"e": "load", "fam": "hot", "op": "all", "t": t, "rules": rules}));
+    let d = rules[0]["dur"].as_u64().unwrap() * 1000;
+    for id in 0..len as u64 {
+        t += match rng.gen_range(0..12) {
+            0..=3 => 0,
+            4 => 1,
+            5 => d,
+            6 => d + 1,
+            7 => d - 1,
+            8 => 2 * d + 1,
+            9 => rng.gen_range(0..=d / 2),
+            10 => rng.gen_range(0..=3 * d),
+            _ => rng.gen_range(0..=50),
+        };
+        let n = if rng.gen_range(0..3) == 0 { rng.gen_range(2..=4) } else { 1 };
+        push_enter(rng, &mut evs, id + 1, "r1", n, false, t, true);
+    }
+    evs
+}
